@@ -1,5 +1,6 @@
 #![allow(dead_code)]
 mod c05;
+mod c06;
 mod c10;
 mod c11;
 mod consumer;
@@ -49,6 +50,7 @@ fn main() {
         "gen" => gen::run(&out, &tier, seed, shards, replay),
         "c14" => c14::run(&out, &tier, seed, shards, replay),
         "c05" => c05::run(&out, &tier, seed, shards, replay),
+        "c06" => c06::run(&out, &tier, seed, shards, replay),
         "c11" => c11::run(&out, &tier, seed, shards, replay),
         other => {
             eprintln!("unknown command {}", other);
